@@ -14,7 +14,7 @@ Definition merged_mentions (rev_attrs : bool) (e : selem) : option (list aattr) 
   match written_mentions e with [] => None | m => Some (merge_spec rev_attrs [] m) end.
 
 Definition resolved_node (rev_attrs : bool) (e : selem) : anode :=
-  ANode (Some (se_name e)) (elem_text_value e) None (merged_mentions rev_attrs e) [] false.
+  ANode (Some (se_name e)) (elem_text_value e) None (merged_mentions rev_attrs e) [] (se_close e).
 
 (* the xsl addon drops `select` from xsl:variable / xsl:with-param that have content: not our subject *)
 Definition xsl_rule_applies (cfg : mconfig) (e : selem) : bool :=
@@ -90,15 +90,24 @@ Definition value_inline (c : oconfig) (v : option (list vtok)) : Prop :=
   | _ => True
   end.
 
-Theorem html_leaf_value c (name : str) (value : option (list vtok)) (attrs : option (list aattr)) :
+Lemma self_close_nl_free c : nl_free (self_close c).
+Proof. unfold self_close. destruct (str_eqb _ s_xhtml); [reflexivity|]. destruct (str_eqb _ s_xml); reflexivity. Qed.
+
+(* what follows the attributes of a childless node: ` />` (by selfClosingStyle) for a self-closing node
+   without text, otherwise `>` text `</name>` *)
+Definition leaf_tail (c : oconfig) (tag : str) (sc : bool) (value : option (list vtok)) : str :=
+  if sc && negb (truthy_l value) then self_close c ++ [c_gt]
+  else [c_gt] ++ value_text (nonempty value) ++ [c_lt; c_slash] ++ tag ++ [c_gt].
+
+Theorem html_leaf_value c (name : str) (value : option (list vtok)) (attrs : option (list aattr)) (sc : bool) :
   name <> [] -> oc_comment_enabled c = false ->
   oc_format_leaf c = false -> mem_str name (oc_format_force c) = false ->
   nl_free (tag_name c name) ->
   Forall (fun a => form_nl_free (attr_out_spec c a)) (match attrs with Some l => l | None => [] end) ->
   value_inline c value ->
-  os_value (fs_out (html_format c [ANode (Some name) value None attrs [] false])) =
+  os_value (fs_out (html_format c [ANode (Some name) value None attrs [] sc])) =
     c_lt :: tag_name c name ++ attrs_text_out c (match attrs with Some l => l | None => [] end)
-    ++ [c_gt] ++ value_text (nonempty value) ++ [c_lt; c_slash] ++ tag_name c name ++ [c_gt].
+    ++ leaf_tail c (tag_name c name) sc value.
 Proof.
   intros Hne Hcom Hleaf Hforce Htag Hattrs Hval.
   destruct name as [|c0 nm]; [congruence|].
@@ -114,20 +123,38 @@ Proof.
   { intros st. destruct attrs as [[|a l]|]; try (cbn; rewrite app_nil_r; reflexivity).
     apply push_attributes_value. exact Hattrs. }
   rewrite map_out_value by (intros; apply add_level_value).
-  rewrite push_str_value by (repeat (apply nl_free_cons; [reflexivity|]); apply nl_free_app; [exact Htag|reflexivity]).
-  destruct value as [[|v0 V']|]; cbn [truthy_l negb andb nonempty value_text value_inline] in *.
-  - rewrite push_tokens_value by (repeat constructor). rewrite push_str_value by reflexivity. rewrite Hfold.
+  unfold leaf_tail.
+  destruct sc; destruct value as [[|v0 V']|]; cbn [truthy_l negb andb nonempty value_text value_inline] in *.
+  - rewrite push_str_value by (apply nl_free_app; [apply self_close_nl_free|reflexivity]). rewrite Hfold.
     rewrite push_str_value by (apply nl_free_cons; [reflexivity|exact Htag]).
     rewrite map_out_value by (intros; apply add_level_value).
-    cbn [fs_out os_value os_empty os_events rev map concat app tok_text caret].
-    rewrite app_nil_r. rewrite <- !app_assoc. reflexivity.
-  - destruct Hval as [Hv1 [Hv2 Hv3]]. rewrite Hv2, Hv3. cbn [orb].
+    cbn [fs_out os_value os_empty os_events rev map concat app]. rewrite <- !app_assoc. reflexivity.
+  - rewrite push_str_value by (repeat (apply nl_free_cons; [reflexivity|]); apply nl_free_app; [exact Htag|reflexivity]).
+    destruct Hval as [Hv1 [Hv2 Hv3]]. rewrite Hv2, Hv3. cbn [orb].
     rewrite push_tokens_value by exact Hv1. rewrite push_str_value by reflexivity. rewrite Hfold.
     rewrite push_str_value by (apply nl_free_cons; [reflexivity|exact Htag]).
     rewrite map_out_value by (intros; apply add_level_value).
     cbn [fs_out os_value os_empty os_events rev map concat app].
     rewrite <- !app_assoc. reflexivity.
-  - rewrite push_tokens_value by (repeat constructor). rewrite push_str_value by reflexivity. rewrite Hfold.
+  - rewrite push_str_value by (apply nl_free_app; [apply self_close_nl_free|reflexivity]). rewrite Hfold.
+    rewrite push_str_value by (apply nl_free_cons; [reflexivity|exact Htag]).
+    rewrite map_out_value by (intros; apply add_level_value).
+    cbn [fs_out os_value os_empty os_events rev map concat app]. rewrite <- !app_assoc. reflexivity.
+  - rewrite push_str_value by (repeat (apply nl_free_cons; [reflexivity|]); apply nl_free_app; [exact Htag|reflexivity]).
+    rewrite push_tokens_value by (repeat constructor). rewrite push_str_value by reflexivity. rewrite Hfold.
+    rewrite push_str_value by (apply nl_free_cons; [reflexivity|exact Htag]).
+    rewrite map_out_value by (intros; apply add_level_value).
+    cbn [fs_out os_value os_empty os_events rev map concat app tok_text caret].
+    rewrite app_nil_r. rewrite <- !app_assoc. reflexivity.
+  - rewrite push_str_value by (repeat (apply nl_free_cons; [reflexivity|]); apply nl_free_app; [exact Htag|reflexivity]).
+    destruct Hval as [Hv1 [Hv2 Hv3]]. rewrite Hv2, Hv3. cbn [orb].
+    rewrite push_tokens_value by exact Hv1. rewrite push_str_value by reflexivity. rewrite Hfold.
+    rewrite push_str_value by (apply nl_free_cons; [reflexivity|exact Htag]).
+    rewrite map_out_value by (intros; apply add_level_value).
+    cbn [fs_out os_value os_empty os_events rev map concat app].
+    rewrite <- !app_assoc. reflexivity.
+  - rewrite push_str_value by (repeat (apply nl_free_cons; [reflexivity|]); apply nl_free_app; [exact Htag|reflexivity]).
+    rewrite push_tokens_value by (repeat constructor). rewrite push_str_value by reflexivity. rewrite Hfold.
     rewrite push_str_value by (apply nl_free_cons; [reflexivity|exact Htag]).
     rewrite map_out_value by (intros; apply add_level_value).
     cbn [fs_out os_value os_empty os_events rev map concat app tok_text caret].
@@ -206,7 +233,7 @@ Theorem expand_element_text x e :
   value_inline c (elem_text_value e) ->
   expand_markup_str x (elem_text e) =
     Ok (c_lt :: tag_name c (se_name e) ++ attrs_text_out c attrs
-        ++ [c_gt] ++ elem_out_text e ++ [c_lt; c_slash] ++ tag_name c (se_name e) ++ [c_gt]).
+        ++ leaf_tail c (tag_name c (se_name e)) (se_close e) (elem_text_value e)).
 Proof.
   cbv zeta. intros Hok Hj Htext Hsnip Hlorem Hxsl [Hs1 [Hs2 Hs3]] Hcom Hleaf Hforce Hattrs Hval.
   unfold expand_markup_str, expand_markup.
@@ -214,8 +241,17 @@ Proof.
   unfold stringify_markup. rewrite Hs1, Hs2, Hs3. unfold resolved_node.
   pose proof Hok as [[Hne HF] _].
   rewrite (html_leaf_value (xc_o x) (se_name e) (elem_text_value e) (merged_mentions (mc_reverse_attrs (xc_m x)) e)
-             Hne Hcom Hleaf Hforce (tag_name_nl_free _ _ HF)).
-  - rewrite elem_value_text. unfold merged_mentions. destruct (written_mentions e) as [|a l] eqn:Em; reflexivity.
+             (se_close e) Hne Hcom Hleaf Hforce (tag_name_nl_free _ _ HF)).
+  - unfold merged_mentions. destruct (written_mentions e) as [|a l] eqn:Em; reflexivity.
   - unfold merged_mentions. destruct (written_mentions e) as [|a l] eqn:Em; [constructor|]. exact Hattrs.
   - exact Hval.
 Qed.
+
+(* the tail without the self-closing mark is `>` text `</name>` *)
+Lemma leaf_tail_open c tag v : leaf_tail c tag false v = [c_gt] ++ value_text (nonempty v) ++ [c_lt; c_slash] ++ tag ++ [c_gt].
+Proof. reflexivity. Qed.
+
+(* an element WITH text keeps it, self-closing mark or not *)
+Lemma leaf_tail_text c tag sc v0 v :
+  leaf_tail c tag sc (Some (v0 :: v)) = [c_gt] ++ concat (map tok_text (v0 :: v)) ++ [c_lt; c_slash] ++ tag ++ [c_gt].
+Proof. unfold leaf_tail. cbn [truthy_l negb]. rewrite andb_false_r. reflexivity. Qed.
